@@ -684,6 +684,20 @@ def t15(rep):
                                     if i0 is not None and i0["k"] == "BinaryOperator" and i0["op"] == "=" and cond is not None and \
                                             cond["k"] == "BinaryOperator" and cond["op"] == "<" and (strip(cond["c"][1]) or {}).get("n") == "lev":
                                         j0 = const_value(i0["c"][1])
+                                elif x["k"] == "WhileStmt":
+                                    # `int j = j0; while (j < lev) { e = e->next; j++; }`: the same walk, counter started by its declaration
+                                    cond = strip(x["c"][0])
+                                    if cond is not None and cond["k"] == "BinaryOperator" and cond["op"] == "<" and \
+                                            (strip(cond["c"][1]) or {}).get("n") == "lev" and (strip(cond["c"][0]) or {}).get("k") == "DeclRefExpr":
+                                        v = strip(cond["c"][0])["n"]
+                                        starts = [const_value(dcl["init"]) for st2 in g["stmts"] for y in walk(st2) if y["k"] == "DeclStmt"
+                                                  for dcl in y.get("decls", []) if dcl["n"] == v and dcl.get("init") is not None]
+                                        starts += [const_value(y["c"][1]) for st2 in g["stmts"] for y in walk(st2)
+                                                   if y["k"] == "BinaryOperator" and y["op"] == "=" and (strip(y["c"][0]) or {}).get("n") == v]
+                                        steps = [y for y in walk(x) if y["k"] == "UnaryOperator" and y["op"] in ("++", "post++") and
+                                                 (strip(y["c"][0]) or {}).get("n") == v]
+                                        if len(starts) == 1 and starts[0] is not None and len(steps) == 1:
+                                            j0 = starts[0]
                         if init is None or j0 is None:
                             raise AnalysisBroken("%s: the default of a `switch (lev)` over lexEnv is not `e = lexEnv->next^m; for (j = j0; "
                                                  "j < lev; j++) e = e->next`" % fname)
